@@ -586,6 +586,37 @@ func (s *Schema) hasZeroSizeElem(t Type, seen map[string]bool) bool {
 	return false
 }
 
+// HasDateKey reports whether a value of type t can hold a map keyed by date.
+func (s *Schema) HasDateKey(t Type) bool { return s.hasDateKey(t, map[string]bool{}) }
+
+func (s *Schema) hasDateKey(t Type, seen map[string]bool) bool {
+	switch {
+	case t.Array != nil:
+		return s.hasDateKey(*t.Array, seen)
+	case t.MapV != nil:
+		return t.MapK == "date" || s.hasDateKey(*t.MapV, seen)
+	case t.Prim != "":
+		return false
+	}
+	d := s.Lookup(t.Named)
+	if d == nil || d.Kind == KEnum || seen[d.Name] {
+		return false
+	}
+	seen[d.Name] = true
+	defer delete(seen, d.Name)
+	for _, f := range d.Fields {
+		if s.hasDateKey(f.Type, seen) {
+			return true
+		}
+	}
+	for _, b := range d.Branches {
+		if s.hasDateKey(Type{Named: b.Def.Name}, seen) {
+			return true
+		}
+	}
+	return false
+}
+
 // Clone deep-copies a schema.
 func (s *Schema) Clone() *Schema {
 	c := &Schema{Name: s.Name, Combined: s.Combined, DeclSeed: s.DeclSeed, Consts: append([]Const(nil), s.Consts...)}
